@@ -59,8 +59,10 @@ def check_aggregator(ds, cfg, kind, f, labs, Xd, Xd_dev, stats):
             else:
                 impl = [sorted(fractions.Fraction(v) for v in agg.loc[l]) for l in alll]
                 want = [sorted(fractions.Fraction(v) for v in r) for r in carvecase.rows_for(kind, alll, col[f], y_)]
-        except Exception as e:
-            impl, want = f"{type(e).__name__}: {e}"[:200], None
+        except Exception:
+            # no verdict (an `_aggregator` that raises makes `fit` itself fail, which the comparison of outcomes sees)
+            stats["aggregator_not_compared"] = stats.get("aggregator_not_compared", 0) + 1
+            continue
         stats["aggregations"] = stats.get("aggregations", 0) + 1
         # the other hypotheses of `C02.stage1_rows` / `stage2_rows` / `dev_rows`: distinct base labels, every row holds one of them
         met = len(set(alll)) == len(alll) and set(col[f].tolist()) <= set(alll)
